@@ -234,6 +234,14 @@ def free_variable_rule(ctx, rid, core, only=None):
                 bound = {str(i_): (H.pat_binds(p_) or [None])[0] for i_, p_ in enumerate(q["pats"])}
             for fld in vfields.get(vname, []):
                 b_ = bound.get(fld)
+                if b_ is not None and b_ in used:
+                    # ... and unconditionally: a child scanned only under a condition on the node (its operator, the child's own kind) is a
+                    # child whose names are sometimes not captured
+                    calls_ = [(n_, g_) for n_, e_, g_ in scope.sites(a["body"], lambda z: H.kind(z) == "Call" and z.get("def") == CFV and z.get("args") and any(H.path_local(y_) == b_ for y_ in H.walk(z["args"][0])), S.Env())]
+                    direct_ = [c_ for c_ in calls_ if not any(gg_[0] in ("if", "arm") for gg_ in c_[1])]
+                    if calls_ and not direct_ and not any(gg_[0] == "loop" for c_ in calls_ for gg_ in c_[1]):
+                        ctx.inst(rid, "recurses-into=Expr::%s.%s" % (vname, fld), False, "expression child `%s` of %s is scanned only under a condition (%s)" % (fld, vname, H.loc(calls_[0][0])), H.loc(a["body"]))
+                        continue
                 ctx.inst(rid, "recurses-into=Expr::%s.%s" % (vname, fld), b_ is not None and b_ in used,
                          "expression child `%s` of %s is %s" % (fld, vname, "bound and visited" if (b_ is not None and b_ in used) else "not visited by this arm (its free variables are never captured)"), H.loc(a["body"]))
     mk = H.matches_on(hcf["body"], "ast::RecordKey")
